@@ -184,6 +184,7 @@ func c09(c *core.Check) {
 	c.Min("codec-framing", 10)
 	// Append / Write in Fields drive read/write for every stored field
 	c09fields(c)
+	c09reserve(c)
 	// template clauses
 	tmplC09(c)
 }
